@@ -1,7 +1,7 @@
 (* Proofs for property C07 over Model/Integrity.v (decision structure from Gen/Check.v).
    All statements are for an arbitrary digest H, arbitrary stores and state databases. *)
 From Coq Require Import NArith List Bool Lia.
-From DvcData Require Import Base.Val Gen.Check Model.Integrity.
+From DvcData Require Import Base.Val Base.PyBase Gen.Check Gen.PyTypes Model.StateDbBase Gen.State Model.Integrity.
 Import ListNotations.
 Open Scope N_scope.
 
@@ -71,6 +71,24 @@ End Assoc.
 
 Definition PROTECTED : N := 292.     (* 0o444 *)
 
+(* tie lemma: the acceptance test built on the TRANSLATED State._get (Gen/State.v) is, on the rows
+   State.save writes, the comparison of the validity token and of the algorithm name *)
+Lemma st_hit_spec w o tok :
+  st_hit w o tok =
+  if w_state w then
+    match lookup o (w_db w) with
+    | Some r => if token_eqb (r_tok r) tok && list_N_eqb (r_alg r) (w_alg w) then Some (r_val r) else None
+    | None => None
+    end
+  else None.
+Proof.
+  unfold st_hit. destruct (w_state w); auto. destruct (lookup o (w_db w)) as [r|]; auto.
+  unfold State__get, srow_of, State_checksum, token_eqb. cbn.
+  destruct (t_ino (r_tok r) =? t_ino tok); cbn; auto.
+  destruct (t_mtime (r_tok r) =? t_mtime tok); cbn; auto.
+  destruct (t_size (r_tok r) =? t_size tok); cbn; auto.
+Qed.
+
 Section WithDigest.
   Variable H : name -> bytes -> oid.
 
@@ -126,7 +144,7 @@ Section WithDigest.
   Lemma hash_file_prefix w o ob : honest_for w o ob ->
     split_dot0 (fst (hash_file w o ob)) = split_dot0 (H (w_alg w) (o_bytes ob)).
   Proof.
-    intros Hh. unfold Integrity.hash_file, st_hit.
+    intros Hh. unfold Integrity.hash_file. rewrite st_hit_spec.
     destruct (w_state w) eqn:S; [|reflexivity].
     destruct (lookup o (w_db w)) as [r|] eqn:L; [|reflexivity].
     destruct (token_eqb (r_tok r) (o_tok ob) && list_N_eqb (r_alg r) (w_alg w)) eqn:E; [|reflexivity].
